@@ -104,6 +104,8 @@ def extra_predicate(cases, impl):
     for cid, ops in cases:
         if cid.endswith('_p0'):
             other = cid[:-3] + '_p165'
+            if other not in impl:
+                continue          # the pair is not complete in this pass (a sampled pass): nothing to compare
             a = [l for l in impl.get(cid, []) if l.startswith(('tx', 'sleep'))]
             b = [l for l in impl.get(other, []) if l.startswith(('tx', 'sleep'))]
             if a != b:
